@@ -97,13 +97,8 @@ Section Assigns.
                         | EIndex p k _ => g_is nm p k || asg_exp p || asg_exp k
                         | _ => false
                         end) vars || existsb asg_exp es
-    | SLocal nms ls _ es _ =>
-      (* the analysis stops after the first value that has no name (surplus values are not visited) *)
-      (fix upto (k : nat) (es : list exp) {struct es} : bool :=
-         match es with
-         | [] => false
-         | e :: es' => asg_exp e || match k with O => false | S k' => upto k' es' end
-         end) (length (combine nms ls)) es
+    | SLocal _ _ _ es _ => existsb asg_exp es      (* every value is analysed (fixes/C20-local-surplus.diff; before: none
+                                                      behind the first value that has no name) *)
     | SLocalFunc _ _ f _ => asg_exp f
     end
   with asg_block (b : block) {struct b} : bool :=
@@ -119,18 +114,9 @@ Section Assigns.
     end.
 End Assigns.
 
-Fixpoint asg_upto (nm : bytes) (k : nat) (es : list exp) {struct es} : bool :=
-  match es with
-  | [] => false
-  | e :: es' => asg_exp nm e || match k with O => false | S k' => asg_upto nm k' es' end
-  end.
 Lemma asg_stat_local : forall nm nms ls at_ es l,
-    asg_stat nm (SLocal nms ls at_ es l) = asg_upto nm (length (combine nms ls)) es.
-Proof.
-  intros nm nms ls at_ es l. cbn [asg_stat]. generalize (length (combine nms ls)).
-  induction es as [|e es IH]; intros k; [reflexivity|]. cbn [asg_upto]. destruct k; [reflexivity|].
-  rewrite <- IH. reflexivity.
-Qed.
+    asg_stat nm (SLocal nms ls at_ es l) = existsb (asg_exp nm) es.
+Proof. reflexivity. Qed.
 
 Lemma asg_stat_repeat : forall nm b e l, asg_stat nm (SRepeat b e l) = asg_exp nm e || asg_block nm b.
 Proof. reflexivity. Qed.
@@ -419,21 +405,18 @@ Section Inv.
     Lemma local_eval_post : forall es names locs s s1 rs,
         forallb (chk_exp pb pt) es = true -> pre s ->
         local_eval ce names locs es s = Ok (s1, rs) ->
-        post s s1 (fun k => asg_upto k (length (combine names locs)) es).
+        post s s1 (fun k => existsb (asg_exp k) es).
     Proof.
       induction es as [|e es IH]; intros names locs s s1 rs Hes Hs H.
       - cbn [local_eval] in H. injection H as <- <-.
         eapply post_weak; [apply post_refl; exact Hs | intros k Hk; discriminate].
       - cbn [forallb] in Hes. apply andb_prop in Hes. destruct Hes as [He Hes].
         cbn [local_eval] in H. inv_bind H. destruct a as [[s2 ofn] sub]. pose proof (Hce _ _ _ _ _ _ He Hs Hb) as P1.
-        destruct names as [|nm names].
-        { injection H as <- <-. eapply post_weak; [exact P1|]. intros k Hk. cbn in Hk. lia. }
-        destruct locs as [|l locs].
-        { injection H as <- <-. eapply post_weak; [exact P1|]. intros k Hk. cbn in Hk. lia. }
-        inv_bind H. destruct a as [s3 rs0]. injection H as <- <-.
-        pose proof (IH _ _ _ _ _ Hes (post_pre _ _ _ P1) Hb0) as P2.
-        eapply post_weak; [exact (post_seq _ _ _ _ _ P1 P2)|].
-        intros k Hk. cbn [combine length asg_upto] in Hk. exact Hk.
+        destruct names as [|nm names]; [|destruct locs as [|l locs]];
+          (inv_bind H; destruct a as [s3 rs0]; injection H as <- <-;
+           pose proof (IH _ _ _ _ _ Hes (post_pre _ _ _ P1) Hb0) as P2;
+           eapply post_weak; [exact (post_seq _ _ _ _ _ P1 P2)|];
+           intros k Hk; cbn [existsb] in Hk; exact Hk).
     Qed.
 
     Lemma local_adds_post : forall es names locs rs s s' rn rl flag,
@@ -458,7 +441,7 @@ Section Inv.
     Lemma local_loop_post : forall es names locs s s' rn rl flag,
         forallb pb names = true -> forallb (chk_exp pb pt) es = true -> pre s ->
         local_loop ce names locs es s = Ok (s', rn, rl, flag) ->
-        post s s' (fun k => asg_upto k (length (combine names locs)) es) /\ forallb pb rn = true.
+        post s s' (fun k => existsb (asg_exp k) es) /\ forallb pb rn = true.
     Proof.
       intros es names locs s s' rn rl flag Hn Hes Hs H. unfold local_loop in H. inv_bind H. destruct a as [s1 rs].
       injection H as H. pose proof (local_eval_post _ _ _ _ _ _ Hes Hs Hb) as P1.
@@ -468,7 +451,7 @@ Section Inv.
 
     Lemma cg_local_post : forall names locs es s s',
         forallb pb names = true -> forallb (chk_exp pb pt) es = true -> pre s ->
-        cg_local ce names locs es s = Ok s' -> post s s' (fun k => asg_upto k (length (combine names locs)) es).
+        cg_local ce names locs es s = Ok s' -> post s s' (fun k => existsb (asg_exp k) es).
     Proof.
       intros names locs es s s' Hn Hes Hs H. unfold cg_local in H. inv_bind H. destruct a as [[[s1 rn] rl] flag].
       ok_inj H. destruct (local_loop_post _ _ _ _ _ _ _ _ Hn Hes Hs Hb) as [P1 Hrn].
